@@ -159,3 +159,54 @@ def run(argv):
     print("selftest-mutants: %d/%d caught, wall=%.0fs" % (caught, len(results), time.time() - t0))
     core.write_json(os.path.join(core.VERIF, "evidence", "selftest-mutants.json"), {"results": results, "caught": caught, "total": len(results)})
     return 0 if caught == len([r for r in results if r["status"] != "not-applicable"]) else 1
+
+
+def seeded(argv):
+    """Apply every independently seeded change under /verif/seeded to a scratch worktree of /repo HEAD
+    (outside /repo and /verif, removed afterwards) and run the quick check(s) that are expected to catch it."""
+    import glob
+
+    only = [a for a in argv if not a.startswith("-")]
+    t0 = time.time()
+    base = tempfile.mkdtemp(prefix="oasseed-", dir="/dev/shm" if os.path.isdir("/dev/shm") else None)
+    results = []
+    try:
+        for mp in sorted(glob.glob(os.path.join(core.VERIF, "seeded", "S*", "meta.json"))):
+            meta = json.load(open(mp))
+            sid = meta["id"]
+            if only and sid not in only:
+                continue
+            wt = os.path.join(base, sid)
+            p = subprocess.run(["git", "-C", core.REPO, "worktree", "add", "-f", "--detach", wt, "HEAD"], capture_output=True, text=True)
+            if p.returncode != 0:
+                results.append({"id": sid, "status": "harness-error", "detail": p.stderr[-300:]})
+                continue
+            try:
+                p = subprocess.run(["git", "-C", wt, "apply", os.path.join(os.path.dirname(mp), "patch.diff")], capture_output=True, text=True)
+                if p.returncode != 0:
+                    results.append({"id": sid, "status": "patch-does-not-apply", "detail": p.stderr[-300:]})
+                    continue
+                props = [k for k, v in meta.get("detection", {}).items() if str(v).startswith("caught")] or [meta["property"]]
+                row = {"id": sid, "property": meta["property"], "checks": {}}
+                for prop in props:
+                    env = dict(os.environ)
+                    env.update(core.required_env())
+                    env.pop("VERIF_REEXEC", None)
+                    env.update({"VERIF_REPO": wt, "VERIF_REPLAY_DIR": os.path.join(base, "rp"), "VERIF_EVIDENCE_DIR": os.path.join(base, "ev"),
+                                "VERIF_MAX_REPORT": "2"})
+                    q = subprocess.run([sys.executable, os.path.join(core.VERIF, "sim", "cli.py"), prop, "quick"], env=env,
+                                       capture_output=True, text=True, timeout=2400, cwd=core.VERIF)
+                    cls = [ln.strip().split(" err=")[0] for ln in q.stdout.splitlines() if ln.strip().startswith("class=")]
+                    row["checks"][prop] = {"exit": q.returncode, "classes": cls[:2]}
+                row["status"] = "caught" if any(c["exit"] == 1 for c in row["checks"].values()) else "missed"
+                results.append(row)
+                print("%s %-4s %s %s" % (sid, meta["property"], row["status"], {k: v["classes"][:1] for k, v in row["checks"].items()}), flush=True)
+            finally:
+                subprocess.run(["git", "-C", core.REPO, "worktree", "remove", "--force", wt], capture_output=True)
+    finally:
+        shutil.rmtree(base, ignore_errors=True)
+        subprocess.run(["git", "-C", core.REPO, "worktree", "prune"], capture_output=True)
+    caught = sum(1 for r in results if r.get("status") == "caught")
+    print("selftest-seeded: %d/%d caught, wall=%.0fs" % (caught, len(results), time.time() - t0))
+    core.write_json(os.path.join(core.VERIF, "evidence", "selftest-seeded.json"), {"results": results, "caught": caught, "total": len(results)})
+    return 0 if caught == len(results) else 1
